@@ -60,7 +60,8 @@ EXTENDS Integers, Sequences, FiniteSets
 
 CONSTANTS LenRule,    \* "equal" | "asfound"
           StoreRule,  \* "last" | "first"  (access node storage, see StoreFold)
-          MissRule    \* "reject" | "accept" (access node, keyper set of the eon unknown)
+          MissRule,   \* "reject" | "accept" (access node, keyper set of the eon unknown)
+          RegRule     \* "append" | "replace" (p2p validator registry, see AddValidator)
 
 GnosisFields  == {"instance", "eon", "slot", "txptr", "ids"}
 ServiceFields == {"instance", "eon", "ids"}
@@ -176,5 +177,34 @@ HandleMessage(c) ==
 Pipeline(c) ==
     UNION { IF v.r = "accept" THEN { IF h.r = "panic" THEN h ELSE v : h \in HandleMessage(c) } ELSE {v}
             : v \in ValidateMessage(c) }
+
+----------------------------------------------------------------------------
+(* The keyper ASSEMBLY: what "accepted by keypers" means on the wire.                      *)
+(* p2p/messaging.go: AddMessageHandler -> addValidatorImpl keeps, per topic, the LIST of   *)
+(* validators in registration order (RegRule "append"; the named alternative "replace"     *)
+(* keeps only the one registered last); ValidatorRegistry.GetCombinedValidator is what     *)
+(* P2PNode.Run registers with libp2p: the validators run in order, the first Reject (or    *)
+(* panic) decides, otherwise Ignore if one ignored, otherwise Accept; errors are only      *)
+(* logged, so the combined verdict carries no reason.                                      *)
+(* On the decryptionKeys topic a keyper of either flavour registers the flavour's          *)
+(* DecryptionKeysHandler (keyperimpl/{gnosis,shutterservice}/keyper.go Start) and then the  *)
+(* core epochkghandler.DecryptionKeyHandler (keyper/keyper.go): order "code"; order "rev"  *)
+(* is the other way round.  The core validator accepts every message of the domain (node   *)
+(* is a member of the config, successful DKG result, genuine ordered decryption keys,      *)
+(* instance id: all by construction).                                                      *)
+AddValidator(reg, v) == IF RegRule = "replace" THEN <<v>> ELSE Append(reg, v)
+Registry(order) ==
+    IF order = "code" THEN AddValidator(AddValidator(<<>>, "flavour"), "core")
+    ELSE AddValidator(AddValidator(<<>>, "core"), "flavour")
+CoreValidateMessage(c) == {Accept}
+ValidatorOutcomes(c, v) == IF v = "flavour" THEN ValidateMessage(c) ELSE CoreValidateMessage(c)
+
+RECURSIVE CombineFrom(_, _, _, _)
+CombineFrom(c, reg, i, ignored) ==
+    IF i > Len(reg) THEN {Out(IF ignored THEN "ignore" ELSE "accept", "")}
+    ELSE UNION { IF o.r = "accept" THEN CombineFrom(c, reg, i + 1, ignored)
+                 ELSE IF o.r = "ignore" THEN CombineFrom(c, reg, i + 1, TRUE)
+                 ELSE {Out(o.r, "")} : o \in ValidatorOutcomes(c, reg[i]) }
+CombinedValidator(c, order) == CombineFrom(c, Registry(order), 1, FALSE)
 
 =============================================================================
